@@ -3,31 +3,36 @@
    Three packages define an unexported function of the same name `dup`: the caller's own package ("cur") and two
    others.  Builder state: override[b] (builder.go pkgName / reset2CurPkg).
      SetPkg(b, p)     b.Pkg(p)
-     MockDup(b)       b.ExportFunc("dup").Apply(cb): resolves dup in override[b], then the override snaps back
+     MockDup(b, k)    k = "func":   b.ExportFunc("dup").Apply(cb): resolves dup in override[b], then the override snaps back
+                      k = "method": b.ExportStruct("*dupS").Method("Get").Apply(cb): the three packages also define an unexported
+                                    struct type of the same name with a method of the same name (C06: a type is addressed by
+                                    package AND name; a handle found for one package must never serve another)
      LookupOther(b)   any other lookup (b.Func(F)) also consumes the override
    Requirement = mechanism here (the statement IS the mechanism); what is checked is the real library. *)
 EXTENDS Integers, Sequences, FiniteSets, TLC, Json
-CONSTANTS B, P, MaxOps        \* P: packages other than "cur"
+CONSTANTS B, P, K, MaxOps        \* P: packages other than "cur"; K: kinds of same-named symbol ("func", "method")
 VARIABLES override, mocked, nid, hist
 vars == <<override, mocked, nid, hist>>
 Pk == P \cup {"cur"}
-Init == override = [b \in B |-> "cur"] /\ mocked = [p \in Pk |-> 0] /\ nid = 0 /\ hist = <<>>
-Obs == [p \in Pk |-> IF mocked'[p] = 0 THEN "orig" ELSE "repl:" \o ToString(mocked'[p])]
+Init == override = [b \in B |-> "cur"] /\ mocked = [k \in {"func", "method"} |-> [p \in Pk |-> 0]] /\ nid = 0 /\ hist = <<>>
+ObsK(k) == [p \in Pk |-> IF mocked'[k][p] = 0 THEN "orig" ELSE "repl:" \o ToString(mocked'[k][p])]
+Obs == ObsK("func")
+ObsM == ObsK("method")
 SetPkg(b, p) == /\ override' = [override EXCEPT ![b] = p] /\ UNCHANGED <<mocked, nid>>
-                /\ hist' = Append(hist, [op |-> "SetPkg", b |-> b, p |-> p, exp |-> Obs, pkgname |-> p])
-MockDup(b) == /\ nid' = nid + 1
-              /\ mocked' = [mocked EXCEPT ![override[b]] = nid + 1]
+                /\ hist' = Append(hist, [op |-> "SetPkg", b |-> b, p |-> p, exp |-> Obs, expm |-> ObsM, pkgname |-> p])
+MockDup(b, k) == /\ nid' = nid + 1
+              /\ mocked' = [mocked EXCEPT ![k][override[b]] = nid + 1]
               /\ override' = [override EXCEPT ![b] = "cur"]
-              /\ hist' = Append(hist, [op |-> "MockDup", b |-> b, id |-> nid + 1, exp |-> Obs, pkgname |-> "cur"])
+              /\ hist' = Append(hist, [op |-> "MockDup", b |-> b, k |-> k, id |-> nid + 1, exp |-> Obs, expm |-> ObsM, pkgname |-> "cur"])
 LookupOther(b) == /\ override' = [override EXCEPT ![b] = "cur"] /\ UNCHANGED <<mocked, nid>>
-                  /\ hist' = Append(hist, [op |-> "LookupOther", b |-> b, exp |-> Obs, pkgname |-> "cur"])
+                  /\ hist' = Append(hist, [op |-> "LookupOther", b |-> b, exp |-> Obs, expm |-> ObsM, pkgname |-> "cur"])
 \* one builder per history owns all mocks here: Reset restores every dup it mocked
-Reset(b) == /\ mocked' = [p \in Pk |-> 0] /\ UNCHANGED <<override, nid>>
-            /\ hist' = Append(hist, [op |-> "Reset", b |-> b, exp |-> Obs, pkgname |-> override[b]])
+Reset(b) == /\ mocked' = [k \in {"func", "method"} |-> [p \in Pk |-> 0]] /\ UNCHANGED <<override, nid>>
+            /\ hist' = Append(hist, [op |-> "Reset", b |-> b, exp |-> Obs, expm |-> ObsM, pkgname |-> override[b]])
 Finish == Len(hist) = MaxOps /\ hist' = Append(hist, [op |-> "End"]) /\ UNCHANGED <<override, mocked, nid>>
 Next == \/ Finish
         \/ /\ Len(hist) < MaxOps
-           /\ \E b \in B : (\E p \in P : SetPkg(b, p)) \/ MockDup(b) \/ LookupOther(b) \/ Reset(b)
+           /\ \E b \in B : (\E p \in P : SetPkg(b, p)) \/ (\E k \in K : MockDup(b, k)) \/ LookupOther(b) \/ Reset(b)
 Spec == Init /\ [][Next]_vars
 \* the override never survives a lookup
 SnapsBack == [][\A b \in B : (Len(hist') > Len(hist) /\ hist'[Len(hist')].op \in {"MockDup", "LookupOther"} /\ hist'[Len(hist')].b = b) => override'[b] = "cur"]_vars
